@@ -1,5 +1,6 @@
 import SieveModel.Lemmas.SerLemmas
 import SieveModel.Lemmas.Safe
+import SieveModel.Lemmas.Threading
 /-!
 # Every tree the parser builds can be printed (`tosieve` does not raise)
 
@@ -432,461 +433,19 @@ end Printable
 namespace Printable
 open Machine Args ArgsSafe
 
-/-- every frame of the stack and every finished top-level command is printable -/
-def SP (T : Table) (s : PState) : Prop := (∀ f ∈ s.stack, FrameP T f) ∧ (∀ n ∈ s.result, NodeP T n)
-
-def KeepsP (T : Table) (r : FnResult) : Prop :=
-  match r with
-  | .ret _ s' _ => SP T s'
-  | _ => True
-
-theorem keepsP_ofCmdErr (T : Table) (rew : Bool) (e : CmdErr) : KeepsP T (ofCmdErr rew e) := by
-  cases e <;> trivial
-
-theorem SP.fields {T : Table} {s s' : PState} (h : SP T s) (h1 : s'.stack = s.stack) (h2 : s'.result = s.result) : SP T s' :=
-  ⟨by rw [h1]; exact h.1, by rw [h2]; exact h.2⟩
-
-theorem withTop_P {T : Table} (s : PState) (f f' : Frame) (rest : List Frame) (hs : s.stack = f :: rest) (h : SP T s)
-    (hf : FrameP T f') : SP T (withTop s f') := by
-  unfold withTop
-  rw [hs]
-  refine ⟨?_, h.2⟩
-  intro g hg
-  simp only [List.mem_cons] at hg
-  rcases hg with rfl | hg
-  · exact hf
-  · exact h.1 g (by rw [hs]; simp [hg])
-
-theorem curCheck_P {T : Table} (s : PState) (h : SP T s) (t : ArgType) (v : AVal) (hc : Consistent t v)
-    (hn : ∀ n, v = .test n → NodeP T n) (b : Bool) (s' : PState) (pl : Placement)
-    (hcc : curCheck s t v = .ok (b, s', pl)) : SP T s' := by
-  unfold curCheck at hcc
-  split at hcc
-  · simp at hcc
-  · rename_i f rest hst
-    split at hcc
-    · simp at hcc
-    · simp at hcc; rw [← hcc.2.1]; exact h
-    · rename_i st' pl' hcna
-      simp at hcc
-      rw [← hcc.2.1]
-      exact withTop_P s f _ rest hst h (checkNextArg_P f (h.1 f (by rw [hst]; simp)) s.loaded t v true true hc hn st' pl' hcna)
-
-theorem upLoop_P {T : Table} (f : Frame) (rest : List Frame) (hf : FrameP T f) (hr : ∀ g ∈ rest, FrameP T g) :
-    ∀ g ∈ (upLoop f rest).1, FrameP T g := by
-  induction rest generalizing f with
-  | nil => intro g hg; simp [upLoop] at hg
-  | cons p r ih =>
-    have hp' : FrameP T (plug p f.attach (Frame.toNode f)) := plug_P p _ _ (hr p (by simp)) (hf.node [])
-    have hr' : ∀ g ∈ r, FrameP T g := fun g hg => hr g (by simp [hg])
-    unfold upLoop
-    simp only
-    split
-    · exact ih _ hp' hr'
-    · intro g hg
-      simp only [List.mem_cons] at hg
-      rcases hg with rfl | hg
-      · exact hp'
-      · exact hr' g hg
-
-theorem up_P {T : Table} (s s' : PState) (h : SP T s) (hu : up s = .ok s') : SP T s' := by
-  unfold up at hu
-  split at hu
-  · simp at hu
-  · rename_i f rest hst
-    simp at hu
-    rw [← hu]
-    have hf : FrameP T f := h.1 f (by rw [hst]; simp)
-    have hr : ∀ g ∈ rest, FrameP T g := fun g hg => h.1 g (by rw [hst]; simp [hg])
-    refine ⟨upLoop_P f rest hf hr, ?_⟩
-    simp only
-    unfold record
-    split
-    · intro n hn
-      simp only [List.mem_append, List.mem_singleton] at hn
-      rcases hn with hn | rfl
-      · exact h.2 n hn
-      · exact hf.node _
-    · exact h.2
-
-theorem complLoop_P {T : Table} (ld : List Bytes) (f : Frame) (rest : List Frame) (hf : FrameP T f)
-    (hr : ∀ g ∈ rest, FrameP T g) (o : ComplOut) (h : complLoop ld f rest = .ok o) : ∀ g ∈ o.stack, FrameP T g := by
-  induction rest generalizing f with
-  | nil =>
-    simp [complLoop] at h
-    subst h
-    intro g hg; simp at hg; subst hg; exact hf
-  | cons p r ih =>
-    have hp' : FrameP T (plug p f.attach (Frame.toNode f)) := plug_P p _ _ (hr p (by simp)) (hf.node [])
-    have hr' : ∀ g ∈ r, FrameP T g := fun g hg => hr g (by simp [hg])
-    have stop : ∀ (q : Frame), FrameP T q → ∀ g ∈ q :: r, FrameP T g := by
-      intro q hq g hg
-      simp only [List.mem_cons] at hg
-      rcases hg with rfl | hg
-      · exact hq
-      · exact hr' g hg
-    unfold complLoop at h
-    simp only at h
-    split at h
-    · split at h
-      · split at h
-        · simp at h; subst h; exact stop _ hp'
-        · exact ih _ hp' hr' h
-      · split at h
-        · simp at h
-        · simp at h; subst h; exact stop _ hp'
-        · rename_i st' pl hcna
-          have hp'' : FrameP T { plug p f.attach (Frame.toNode f) with st := st' } :=
-            checkNextArg_P _ hp' ld .test _ false true (by simp [Consistent]) (by intro n hn; injection hn with hn; subst hn; exact hf.node []) st' pl hcna
-          split at h
-          · simp at h; subst h; exact stop _ hp''
-          · exact ih _ hp'' hr' h
-    · exact ih _ hp' hr' h
-
-theorem completion_P {T : Table} (s : PState) (h : SP T s) (ts b : Bool) (s' : PState)
-    (hc : completion s ts = .ok (b, s')) : SP T s' := by
-  unfold completion at hc
-  split at hc
-  · simp at hc
-  · rename_i f rest hst
-    split at hc
-    · simp at hc; rw [← hc.2]; exact h
-    · split at hc
-      · simp at hc; rw [← hc.2]; split
-        · exact h.fields rfl rfl
-        · exact h
-      · split at hc
-        · simp at hc
-        · rename_i o ho
-          simp at hc
-          rw [← hc.2]
-          refine ⟨?_, h.2⟩
-          exact complLoop_P s.loaded f rest (h.1 f (by rw [hst]; simp)) (fun g hg => h.1 g (by rw [hst]; simp [hg])) o ho
-
-theorem keepsP_complThen {T : Table} (s : PState) (h : SP T s) (ts rew : Bool) : KeepsP T (complThen s ts rew) := by
-  unfold complThen
-  split
-  · exact keepsP_ofCmdErr _ _ _
-  · rename_i b s' hc
-    exact completion_P s h ts b s' hc
-
-theorem popBracket_P {T : Table} (s s1 : PState) (k : TokKind) (h : SP T s) (hp : popBracket s k = some s1) : SP T s1 := by
-  unfold popBracket at hp
-  split at hp
-  · simp at hp
-  · split at hp
-    · simp at hp; rw [← hp]; exact h.fields rfl rfl
-    · simp at hp
-
-theorem keepsP_offer {T : Table} (s : PState) (h : SP T s) (t : ArgType) (v : AVal) (hc : Consistent t v)
-    (hn : ∀ n, v = .test n → NodeP T n) : KeepsP T (offer s t v) := by
-  unfold offer
-  split
-  · exact keepsP_ofCmdErr _ _ _
-  · rename_i b s' pl hcc
-    exact curCheck_P s h t v hc hn b s' pl hcc
-
-theorem keepsP_tryReassign {T : Table} (s : PState) (h : SP T s) : KeepsP T (tryReassign s) := by
-  unfold tryReassign
-  split
-  · trivial
-  · rename_i f rest hst
-    split
-    · split
-      · exact h
-      · rename_i f' hre
-        exact withTop_P s f f' rest hst h (reassign_P f f' (h.1 f (by rw [hst]; simp)) hre)
-    · exact h
-
-theorem keepsP_thenCompl {T : Table} (r : FnResult) (h : KeepsP T r) : KeepsP T (thenCompl r) := by
-  unfold thenCompl
-  split
-  · rename_i s' rew
-    exact keepsP_complThen s' h false rew
-  · exact h
-
-theorem keepsP_argThenCompl {T : Table} (s : PState) (h : SP T s) (k : TokKind) (text : Bytes) :
-    KeepsP T (argThenCompl s k text) := by
-  unfold argThenCompl
-  apply keepsP_thenCompl
-  have hoff : ∀ t v, Consistent t v → (∀ n, v = .test n → NodeP T n) →
-      KeepsP T (if (!Utf8.valid text) = true then FnResult.err PErr.decodeError false else offer s t v) := by
-    intro t v hc hn; split
-    · trivial
-    · exact keepsP_offer s h t v hc hn
-  have nt : ∀ (b : Bytes) (n : Node), AVal.str b = .test n → NodeP T n := by intro b n hh; cases hh
-  cases k with
-  | string => exact hoff _ _ (by simp [Consistent]) (nt _)
-  | multiline => exact hoff _ _ (by simp [Consistent]) (nt _)
-  | number => exact keepsP_offer s h _ _ (by simp [Consistent]) (nt _)
-  | tag => exact keepsP_offer s h _ _ (by simp [Consistent]) (nt _)
-  | left_bracket => exact h.fields rfl rfl
-  | left_cbracket => exact keepsP_tryReassign s h
-  | comma => exact keepsP_tryReassign s h
-  | right_parenthesis => exact keepsP_tryReassign s h
-  | semicolon => exact h
-  | right_bracket => exact h
-  | left_parenthesis => exact h
-  | right_cbracket => exact h
-  | hash_comment => exact h
-  | bracket_comment => exact h
-  | identifier => exact h
-
-theorem getCommand_mem' (T : Table) (ld : List Bytes) (ident : Bytes) (ce : Bool) (d : CmdDef)
-    (h : getCommand T ld ident ce = .ok d) : d ∈ T := by
-  unfold getCommand at h
-  cases hl : T.lookup ident with
-  | none => rw [hl] at h; simp at h
-  | some d' =>
-    rw [hl] at h
-    simp only at h
-    split at h
-    · simp at h
-    · simp only [Except.ok.injEq] at h
-      subst h
-      unfold Table.lookup Table.findKey at hl
-      exact List.mem_of_find?_eq_some hl
-
-theorem keepsP_pushTest {T : Table} (hT : TableP T) (s : PState) (h : SP T s) (text : Bytes) : KeepsP T (pushTest T s text) := by
-  unfold pushTest
-  split
-  · trivial
-  · rename_i d hd
-    have hdp : defP T d = true := hT d (getCommand_mem' T _ _ _ d hd)
-    have hph : NodeP T (.mk d.name [] [] [] []) := (FrameP.fresh d hdp .top).node []
-    split
-    · trivial
-    · split
-      · exact keepsP_ofCmdErr _ _ _
-      · rename_i s1 pl hcc
-        exact curCheck_P s h .test _ (by simp [Consistent]) (by intro n hn; injection hn with hn; subst hn; exact hph) _ _ _ hcc
-      · rename_i s1 pl hcc
-        have h1 := curCheck_P s h .test _ (by simp [Consistent]) (by intro n hn; injection hn with hn; subst hn; exact hph) _ _ _ hcc
-        apply keepsP_complThen
-        refine ⟨?_, h1.2⟩
-        intro g hg
-        simp only [List.mem_cons] at hg
-        rcases hg with rfl | hg
-        · exact FrameP.fresh d hdp _
-        · exact h1.1 g hg
-
-theorem keepsP_closeParen {T : Table} (s : PState) (h : SP T s) : KeepsP T (closeParen s) := by
-  unfold closeParen
-  split
-  · trivial
-  · rename_i s1 h1
-    split
-    · trivial
-    · rename_i s2 h2
-      exact up_P s1 s2 (popBracket_P s s1 _ h h1) h2
-
-theorem keepsP_argumentsFn {T : Table} (hT : TableP T) (s : PState) (h : SP T s) (k : TokKind) (text : Bytes) :
-    KeepsP T (argumentsFn T s k text) := by
-  unfold argumentsFn
-  split
-  · trivial
-  · split
-    · exact keepsP_pushTest hT s h text
-    · split
-      · exact h.fields rfl rfl
-      · exact keepsP_argThenCompl s h _ text
-    · split
-      · exact h.fields rfl rfl
-      · exact keepsP_argThenCompl s h _ text
-    · split
-      · exact keepsP_argThenCompl s h _ text
-      · exact keepsP_closeParen s h
-    · exact keepsP_argThenCompl s h _ text
-
-theorem keepsP_stringlistFn {T : Table} (s : PState) (h : SP T s) (k : TokKind) (text : Bytes) :
-    KeepsP T (stringlistFn s k text) := by
-  unfold stringlistFn
-  split
-  · split
-    · trivial
-    · exact h.fields rfl rfl
-  · exact h.fields rfl rfl
-  · split
-    · trivial
-    · rename_i s1 h1
-      have hp := popBracket_P s s1 _ h h1
-      have nt : ∀ (n : Node), AVal.strs s1.curlist = .test n → NodeP T n := by intro n hh; cases hh
-      split
-      · exact keepsP_ofCmdErr _ _ _
-      · rename_i s2 pl hcc
-        exact curCheck_P s1 hp .stringlist _ (by simp [Consistent]) nt _ _ _ hcc
-      · rename_i s2 pl hcc
-        have h2 := curCheck_P s1 hp .stringlist _ (by simp [Consistent]) nt _ _ _ hcc
-        exact keepsP_complThen ⟨s2.result, s2.comments, s2.stack, .arguments, s2.curlist, s2.expected, s2.brackets, s2.loaded⟩
-          (h2.fields rfl rfl) true false
-  · exact h
-
-theorem keepsP_stateFn {T : Table} (hT : TableP T) (s : PState) (h : SP T s) (k : TokKind) (text : Bytes) :
-    KeepsP T (stateFn T s k text) := by
-  unfold stateFn
-  split
-  · exact keepsP_stringlistFn s h k text
-  · exact keepsP_argumentsFn hT s h k text
-
-theorem keepsP_startCommand {T : Table} (hT : TableP T) (s : PState) (h : SP T s) (k : TokKind) (text : Bytes) :
-    KeepsP T (startCommand T s k text) := by
-  unfold startCommand
-  split
-  · split
-    · trivial
-    · rename_i s1 h1
-      split
-      · trivial
-      · rename_i s2 h2
-        exact (up_P s1 s2 (popBracket_P s s1 _ h h1) h2).fields rfl rfl
-  · split
-    · exact h
-    · split
-      · trivial
-      · rename_i d hd
-        have hdp : defP T d = true := hT d (getCommand_mem' T _ _ _ d hd)
-        split
-        · trivial
-        · split
-          · trivial
-          · have ha : SP T (announce s d) := by unfold announce; split <;> exact h.fields rfl rfl
-            unfold pushCommand
-            split
-            · refine ⟨?_, ha.2⟩
-              intro g hg; simp at hg; subst hg; exact FrameP.fresh d hdp _
-            · split
-              · trivial
-              · refine ⟨?_, ha.2⟩
-                intro g hg
-                simp only [List.mem_cons] at hg
-                rcases hg with rfl | hg
-                · exact FrameP.fresh d hdp _
-                · exact ha.1 g hg
-
-theorem keepsP_closeCommand {T : Table} (s' : PState) (h : SP T s') (k : TokKind) (rew : Bool) :
-    KeepsP T (closeCommand s' k rew) := by
-  unfold closeCommand
-  split
-  · split
-    · trivial
-    · split
-      · exact h.fields rfl rfl
-      · exact h
-  · split
-    · split
-      · trivial
-      · split
-        · exact h
-        · split
-          · rename_i e _; cases e <;> trivial
-          · rename_i s2 hc
-            exact completion_P { s' with cstate := .none } (h.fields rfl rfl) _ _ _ hc
-          · rename_i s2 hc
-            have h2 := completion_P { s' with cstate := .none } (h.fields rfl rfl) _ _ _ hc
-            split
-            · trivial
-            · rename_i g rest2 hst2
-              simp only
-              split
-              · trivial
-              · rename_i s4 hup
-                exact up_P { s2 with loaded := completeCb g s2.loaded } s4 (h2.fields rfl rfl) hup
-    · exact h
-
-theorem keepsP_commandFn {T : Table} (hT : TableP T) (s : PState) (h : SP T s) (k : TokKind) (text : Bytes) :
-    KeepsP T (commandFn T s k text) := by
-  unfold commandFn
-  split
-  · exact keepsP_startCommand hT s h k text
-  · have hg := keepsP_stateFn hT s h k text
-    split
-    · rename_i s' rew heq
-      rw [heq] at hg
-      exact keepsP_closeCommand s' hg k rew
-    · exact hg
-
-theorem step_P {T : Table} (hT : TableP T) (s : PState) (h : SP T s) (tok : Tok) (s' : PState)
-    (hs : step T s tok = .ok s' ∨ step T s tok = .rewind s') : SP T s' := by
-  unfold step at hs
-  split at hs
-  · rcases hs with hs | hs <;> simp at hs
-    rw [← hs]; exact h.fields rfl rfl
-  · rcases hs with hs | hs <;> simp at hs
-    rw [← hs]; exact h
-  · unfold stepTok at hs
-    split at hs
-    · rcases hs with hs | hs <;> simp at hs
-    · rename_i s1 hadm
-      have h1 : SP T s1 := by
-        unfold admitTok at hadm
-        split at hadm
-        · simp at hadm; subst hadm; exact h
-        · split at hadm
-          · simp at hadm; subst hadm; exact h.fields rfl rfl
-          · simp at hadm
-      have hg := keepsP_commandFn hT s1 h1 tok.kind tok.text
-      unfold ofFn at hs
-      split at hs
-      · rename_i s2 heq; rw [heq] at hg; rcases hs with hs | hs <;> simp at hs; subst hs; exact hg
-      · rename_i s2 heq; rw [heq] at hg; rcases hs with hs | hs <;> simp at hs; subst hs; exact hg
-      · rcases hs with hs | hs <;> simp at hs
-      · rcases hs with hs | hs <;> simp at hs
-      · rcases hs with hs | hs <;> simp at hs
-
-theorem deliver_P {T : Table} (hT : TableP T) (s : PState) (h : SP T s) (tok : Tok) (s' : PState)
-    (hd : deliver T s tok = .ok s') : SP T s' := by
-  unfold deliver at hd
-  cases hst : step T s tok with
-  | ok s1 => rw [hst] at hd; simp at hd; subst hd; exact step_P hT s h tok s1 (Or.inl hst)
-  | reject e r => rw [hst] at hd; simp at hd
-  | crash w => rw [hst] at hd; simp at hd
-  | rewind s1 =>
-    rw [hst] at hd
-    simp only at hd
-    have h1 := step_P hT s h tok s1 (Or.inr hst)
-    cases hst2 : step T s1 tok with
-    | ok s2 => rw [hst2] at hd; simp at hd; subst hd; exact step_P hT s1 h1 tok s2 (Or.inl hst2)
-    | reject e r => rw [hst2] at hd; simp at hd
-    | crash w => rw [hst2] at hd; simp at hd
-    | rewind s2 => rw [hst2] at hd; simp at hd
-
-theorem feed_P {T : Table} (hT : TableP T) (toks : List Tok) (s : PState) (n : Nat) (h : SP T s) (s' : PState) (m : Nat)
-    (hf : feed T toks s n = .done s' m) : SP T s' := by
-  induction toks generalizing s n with
-  | nil => simp [feed] at hf; rw [← hf.1]; exact h
-  | cons tok rest ih =>
-    unfold feed at hf
-    cases hd : deliver T s tok with
-    | error o => rw [hd] at hf; simp at hf
-    | ok s1 =>
-      rw [hd] at hf
-      exact ih s1 _ (deliver_P hT s h tok s1 hd) hf
+/-- printability is closed under the five ways the machine builds frames -/
+theorem closed {T : Table} (hT : TableP T) : Threading.Closed T (FrameP T) (NodeP T) :=
+  ⟨fun d hd a => FrameP.fresh d (hT d hd) a,
+   fun f c hf => hf.node c,
+   fun f ld t v add ce st' pl hf hc hn h => checkNextArg_P f hf ld t v add ce hc hn st' pl h,
+   fun p a n hp hn => plug_P p a n hp hn,
+   fun f f' hf h => reassign_P f f' hf h⟩
 
 /-- **every accepted script can be printed**: `tosieve` of the result never raises -/
 theorem accepted_is_printable {T : Table} (hT : TableP T) (text : Bytes) (prev : PState) (r : List Node)
     (h : parse T text prev = .accept r) : Ser.script T r ≠ none := by
-  unfold parse at h
-  split at h
-  · simp at h
-  · rename_i lr hl
-    unfold run at h
-    split at h
-    · rename_i o ho
-      subst h
-      -- a stop is a rejection, a crash or a hang, never an acceptance
-      rcases feed_stop_located T lr.toks {} 0 _ ho with h1 | ⟨w, h1⟩ | ⟨tok, _, e, h1 | h1⟩ <;> simp at h1
-    · rename_i s' m hfeed
-      split at h
-      · simp at h
-      · unfold finish at h
-        split at h
-        · simp at h
-        · split at h
-          · simp at h
-          · simp at h
-            subst h
-            have hsp := feed_P hT lr.toks {} 0 ⟨by intro f hf; simp at hf, by intro n hn; simp at hn⟩ s' m hfeed
-            unfold Ser.script
-            exact (Ser.nodes_some_iff T 0 _).mpr (fun n hn => hsp.2 n hn 0)
+  have := Threading.accepted_nodes (closed hT) text prev r h
+  unfold Ser.script
+  exact (Ser.nodes_some_iff T 0 _).mpr (fun n hn => this n hn 0)
 
 end Printable
